@@ -229,8 +229,15 @@ def St.isearchLoop (fuel : Nat) (s : St) (pattern : Obj) (ids : List String) (no
           St.isearchLoop fuel s1 pattern rest now (if bss.isEmpty then acc else acc ++ [(id, fact, bss)])
 end
 
-/-- generous recursion budget: each level deletes a fact or is followed by one that does (see C08) -/
-def St.fuel (s : St) : Nat := 6 * s.facts.length + 12
+/-- length of the longest id list in the term index -/
+def tiWidth : TI → Nat
+  | [] => 0
+  | (_, ids) :: r => max ids.length (tiWidth r)
+
+/-- recursion budget: each level deletes a fact or is followed by one that does; the candidate lists of the indexed
+search are bounded by the widest term-index entry, which stale entries can make longer than the number of facts
+(C08 `cascade_terminates`, `fuel_insufficient` for the budget without the last summand) -/
+def St.fuel (s : St) : Nat := 6 * s.facts.length + 12 + tiWidth s.ti
 
 /-- `IndexedState.Add`: memory first, then the caller's document goes to storage -/
 def St.iAdd (s : St) (given : String) (x : Obj) (now : Int) : St × Except LErr String :=
